@@ -7,6 +7,7 @@ Driver of the `edges` model.  Ops:
   range <k> <start> <end>                    -> ok <start> <end> <events> | err ValueError
   latest <k> <lb> <ub>                       -> same
   combine <k1,k2,...>                        -> same | err ValueError | err IndexError
+  rangeS / latestS / combineS                -> as range / latest / combine; a successful result is also stored as the next block #k
   spec <init 0|1> <s0in> <bits>              -> ok <events>   (all transitions of the stream)
 events: `r@5,f@9` or `-`.
 -/
@@ -43,6 +44,12 @@ def parseDetect? (s : String) : Option Detect :=
   if s == "r" then some .rising else if s == "f" then some .falling
   else if s == "b" then some .both else none
 
+/-- keep a successful query result as a new block (queries on query results) -/
+def store (σ : St) (r : Except Psi.Epochs.Err Block) : St × String :=
+  match r with
+  | .ok b => ({ σ with blocks := σ.blocks.push b }, showRes r)
+  | .error _ => (σ, showRes r)
+
 def step (σ : St) (ws : List String) : St × String :=
   match ws with
   | ["new", m, ini, s0, det] =>
@@ -73,6 +80,27 @@ def step (σ : St) (ws : List String) : St × String :=
       | some b => (σ, showRes (getLatestSamples b lb ub))
       | none => (σ, "bad-op")
     | _, _, _ => (σ, "bad-op")
+  | ["rangeS", k, s, e] =>
+    match parseNat? k, parseInt? s, parseInt? e with
+    | some k, some s, some e =>
+      match σ.blocks[k]? with
+      | some b => store σ (getRangeSamples b s e)
+      | none => (σ, "bad-op")
+    | _, _, _ => (σ, "bad-op")
+  | ["latestS", k, lb, ub] =>
+    match parseNat? k, parseInt? lb, parseInt? ub with
+    | some k, some lb, some ub =>
+      match σ.blocks[k]? with
+      | some b => store σ (getLatestSamples b lb ub)
+      | none => (σ, "bad-op")
+    | _, _, _ => (σ, "bad-op")
+  | ["combineS", ks] =>
+    match parseNats? ks with
+    | some ks =>
+      match ks.mapM (fun k => σ.blocks[k]?) with
+      | some bs => store σ (combineEvents bs)
+      | none => (σ, "bad-op")
+    | none => (σ, "bad-op")
   | ["combine", ks] =>
     match parseNats? ks with
     | some ks =>
